@@ -66,11 +66,27 @@ def ge := cmp (fun x y => decide (x ≥ y))
 /-- equality of two byte strings (`*program_id == token::id()`) -/
 def eqBytes (a b : Bytes) : Res Bool := .ok (a == b)
 
+/-- one arm of a `match`: taken if its pattern/guard holds, otherwise the later arms are tried -/
+def armStep (r : Res Bool) (rest : Unit → Res Nat) : Res Nat :=
+  match r with
+  | .ok true => .ok 0
+  | .ok false => (rest ()).map (· + 1)
+  | .err e => .err e
+  | .panic => .panic
+
+/-- `match x { p₀ if g₀ => …, p₁ if g₁ => …, … }`: the index of the first arm whose pattern/guard holds
+    (guards are evaluated in order, and only until one holds) -/
+def firstArm : List (Unit → Res Bool) → Res Nat
+  | [] => .panic                       -- a Rust `match` is exhaustive: not reachable for generated lists
+  | g :: gs => armStep (g ()) (fun _ => firstArm gs)
+
 /-! evaluation lemmas: on values the combinators compute -/
 @[simp] theorem and_ok (b : Bool) (f : Unit → Res Bool) : RX.and (.ok b) f = if b then f () else .ok false := by
   cases b <;> rfl
 @[simp] theorem or_ok (b : Bool) (f : Unit → Res Bool) : RX.or (.ok b) f = if b then .ok true else f () := by
   cases b <;> rfl
+@[simp] theorem armStep_ok (b : Bool) (rest : Unit → Res Nat) :
+    armStep (.ok b) rest = if b then .ok 0 else (rest ()).map (· + 1) := by cases b <;> rfl
 @[simp] theorem cmp_ok (f : Nat → Nat → Bool) (x y : Nat) : cmp f (.ok x) (.ok y) = .ok (f x y) := rfl
 @[simp] theorem cmp_panic_r (f : Nat → Nat → Bool) (x : Nat) : cmp f (.ok x) .panic = .panic := rfl
 @[simp] theorem cmp_panic_l (f : Nat → Nat → Bool) (b : Res Nat) : cmp f .panic b = .panic := by cases b <;> rfl
